@@ -145,8 +145,11 @@ def build(ctx, cfg):
     N = cfg['N']
     B = cfg['B']
     names = ['p%d' % i for i in range(N)]
-    for n in names:
-        run.procs[n] = P(run, n, cfg['mode'], cfg['cond'], B)
+    for i, n in enumerate(names):
+        cond = cfg['cond']
+        if cond == 'mixed':        # only the last process has a condition
+            cond = 'fresh' if i == len(names) - 1 else 'none'
+        run.procs[n] = P(run, n, cfg['mode'], cond, B)
     run.sink = stubs.reset_sink()
     kwargs = {}
     if cfg.get('precision') is not None:
